@@ -1,6 +1,7 @@
 #include "kernel/sim.hpp"
 #include "kernel/simio.hpp"
 #include <unistd.h>
+#include <fcntl.h>
 #include <signal.h>
 #include <sys/wait.h>
 #include <time.h>
@@ -28,6 +29,7 @@ std::string hex(const uint8_t *p, size_t n, size_t max) {
 void Log::raw(const char *s, size_t n) {
 	h = fnv(s, n, h); h = fnv("\n", 1, h); ++events;
 	if (verbose) { text.append(s, n); text += '\n'; }
+	if (stream) { fwrite(s, 1, n, stdout); fputc('\n', stdout); fflush(stdout); }
 }
 void Log::ev(const char *fmt, ...) {
 	char buf[1024];
@@ -106,8 +108,9 @@ bool Plan::parse(const std::string &text, const World &w, Plan &p, std::string &
 }
 
 // ------------------------------------------------------------------ run one plan
+static bool g_stream = false;
 Result run_plan(World &w, const Plan &p, bool verbose, Stats &st, std::string *text) {
-	Log log; log.verbose = verbose;
+	Log log; log.verbose = verbose; log.stream = g_stream;
 	Result r;
 	g = Seams();
 	ledger_reset();
@@ -135,6 +138,7 @@ static uint64_t run_seed(uint64_t base, uint64_t idx) {
 	uint64_t x = base * 0x9e3779b97f4a7c15ULL + idx;
 	return splitmix64(x);
 }
+int g_mode = 0;
 static bool g_sweep = false;
 static Plan make_plan(World &w, uint64_t base, uint64_t idx, int tier) {
 	Plan p; p.world = w.name();
@@ -418,6 +422,7 @@ int sim_main(int argc, char **argv) {
 	uint64_t base = strtoull(arg(argc, argv, "--base", "1"), 0, 0);
 	int tier = !strcmp(arg(argc, argv, "--tier", "quick"), "thorough") ? 1 : 0;
 	g_sweep = flag(argc, argv, "--sweep");
+	g_mode = atoi(arg(argc, argv, "--mode", "0"));
 
 	if (mode == "run") {
 		uint64_t from = strtoull(arg(argc, argv, "--from", "0"), 0, 0);
@@ -473,6 +478,13 @@ int sim_main(int argc, char **argv) {
 		if (!read_file(argv[2], t) || !Plan::parse(t, w, p, err)) { fprintf(stderr, "cannot read plan: %s\n", err.c_str()); return 2; }
 		std::string etext;
 		Result r = exec_child(w, p, 60, &etext);
+		if (verbose && !r.sig.empty() && (r.sig.compare(0, 4, "asan") == 0 || r.sig.compare(0, 5, "ubsan") == 0 || r.sig.compare(0, 5, "crash") == 0 || r.sig == "hang")) {
+			// crashing plan: run it once more in a child that prints every event as it happens
+			fflush(stdout);
+			pid_t pid = fork();
+			if (!pid) { g_stream = true; alarm(60); Stats st; int fd = open("/dev/null", O_WRONLY); dup2(fd, 2); run_plan(w, p, false, st); _exit(0); }
+			int status; waitpid(pid, &status, 0);
+		}
 		if (verbose) {
 			// re-run in-process for the full event text if it does not crash
 			if (r.sig.empty() || r.sig.find(':') == std::string::npos || r.sig.compare(0, 4, "asan") != 0) {
